@@ -22,6 +22,13 @@ package main
 //
 //	N null | bool 0/1 | ints decimal | float 16 hex digits (IEEE bits) | string S<hex> | time
 //	decimal Unix nanoseconds | roles R<r1>.<r2>... | child C (root only), C1 (plain child data), C2 (extended child data)
+//
+// Any of the six value columns may instead hold a TYPED token — the value is then stored under the
+// column's key with the token's own type, whatever the column's symbol type is (the typed bucket
+// admits any type under any key; the symbol reads it through FieldTo<symbol type>):
+//
+//	B0/B1 bool | I<dec> int64 | J<dec> int32 | F<16 hex>x<hex of FormatFloat(v,'f',-1,64)> float64 |
+//	S<hex> string | T<dec> time
 
 import (
 	"context"
@@ -50,9 +57,68 @@ type pgThing struct {
 	S     *string
 	T     *time.Time
 	Roles []string
-	Child string // "", "1" (plain child data) or "2" (extended child data)
+	Child string  // "", "1" (plain child data) or "2" (extended child data)
+	Owner *string // fk to the owners store (bolt only)
 	// explicit nil marker (SetNil) instead of an absent key, for odd rows
 	explicitNil bool
+	// columns whose stored type differs from the column's native type: key -> typed value
+	over map[string]*pgTyped
+}
+
+type pgTyped struct {
+	kind byte // B I J F S T
+	b    bool
+	i    int64
+	f    float64
+	s    string
+	t    time.Time
+}
+
+// pgTypedTok parses a typed field token; ok = false for the positional (untyped) forms.
+func pgTypedTok(tok string) (*pgTyped, bool) {
+	if len(tok) == 0 || !strings.ContainsRune("BIJFST", rune(tok[0])) {
+		return nil, false
+	}
+	v := &pgTyped{kind: tok[0]}
+	body := tok[1:]
+	switch tok[0] {
+	case 'B':
+		v.b = body == "1"
+	case 'I':
+		v.i, _ = strconv.ParseInt(body, 10, 64)
+	case 'J':
+		v.i, _ = strconv.ParseInt(body, 10, 32)
+	case 'F':
+		bits, _ := strconv.ParseUint(strings.SplitN(body, "x", 2)[0], 16, 64)
+		v.f = math.Float64frombits(bits)
+	case 'S':
+		v.s = fromWire(orDash(body))
+	case 'T':
+		v.t = pgTimeOf(body)
+	}
+	return v, true
+}
+
+// pgFloatTok renders a typed float token (bits + the text strconv prints, computed here, outside /repo).
+func pgFloatTok(v float64) string {
+	return fmt.Sprintf("F%016xx%s", math.Float64bits(v), strings.TrimPrefix(toWire(strconv.FormatFloat(v, 'f', -1, 64)), "-"))
+}
+
+func (v *pgTyped) persist(name string, ctx *boltz.PersistContext) {
+	switch v.kind {
+	case 'B':
+		ctx.Bucket.SetBool(name, v.b, ctx.FieldChecker)
+	case 'I':
+		ctx.Bucket.SetInt64(name, v.i, ctx.FieldChecker)
+	case 'J':
+		ctx.Bucket.SetInt32(name, int32(v.i), ctx.FieldChecker)
+	case 'F':
+		ctx.Bucket.SetFloat64(name, v.f, ctx.FieldChecker)
+	case 'S':
+		ctx.Bucket.SetString(name, v.s, ctx.FieldChecker)
+	case 'T':
+		ctx.Bucket.SetTime(name, v.t, ctx.FieldChecker)
+	}
 }
 
 func (e *pgThing) GetId() string         { return e.Id }
@@ -69,38 +135,77 @@ func (pgStrategy) PersistEntity(e *pgThing, ctx *boltz.PersistContext) {
 			ctx.Bucket.SetNil(name)
 		}
 	}
-	if e.B != nil {
+	for name, v := range e.over {
+		v.persist(name, ctx)
+	}
+	if e.over["b"] != nil {
+	} else if e.B != nil {
 		ctx.SetBool("b", *e.B)
 	} else {
 		null("b")
 	}
-	if e.I != nil {
+	if e.over["i"] != nil {
+	} else if e.I != nil {
 		ctx.SetInt64("i", *e.I)
 	} else {
 		null("i")
 	}
-	if e.N != nil {
+	if e.over["n"] != nil {
+	} else if e.N != nil {
 		ctx.SetInt32("n", *e.N)
 	} else {
 		null("n")
 	}
-	if e.F != nil {
+	if e.over["f"] != nil {
+	} else if e.F != nil {
 		ctx.Bucket.SetFloat64("f", *e.F, ctx.FieldChecker)
 	} else {
 		null("f")
 	}
-	if e.S != nil {
+	if e.over["s"] != nil {
+	} else if e.S != nil {
 		ctx.SetString("s", *e.S)
 	} else {
 		null("s")
 	}
-	if e.T != nil {
+	if e.over["t"] != nil {
+	} else if e.T != nil {
 		ctx.SetTimeP("t", e.T)
 	} else {
 		null("t")
 	}
 	ctx.SetStringList("roles", e.Roles)
+	ctx.SetStringP("owner", e.Owner)
+	// the map symbol `tags`: one element k mirroring the string field (sorting on tags.k is refused, the
+	// values only matter if a comparator were ever built for it)
+	tags := map[string]interface{}{}
+	if e.S != nil {
+		tags["k"] = *e.S
+	}
+	ctx.SetMap("tags", tags)
 }
+
+// pgOwner: the store the fk `things.owner` points to; its fk set symbol `things` is the back-reference
+// list the fk index maintains (GetRelatedEntitiesCursor, OpenSetCursorForQuery).
+type pgOwner struct {
+	Id    string
+	Label *string
+}
+
+func (e *pgOwner) GetId() string         { return e.Id }
+func (e *pgOwner) SetId(id string)       { e.Id = id }
+func (e *pgOwner) GetEntityType() string { return "owners" }
+
+type pgOwnerStrategy struct{}
+
+func (pgOwnerStrategy) NewEntity() *pgOwner                         { return &pgOwner{} }
+func (pgOwnerStrategy) FillEntity(e *pgOwner, b *boltz.TypedBucket) {}
+func (pgOwnerStrategy) PersistEntity(e *pgOwner, ctx *boltz.PersistContext) {
+	ctx.SetStringP("label", e.Label)
+}
+
+// the owners every dataset has: o1 (label "x"), o2 (no label), o3 (label "a")
+var pgOwnerIds = []string{"o1", "o2", "o3"}
 
 type pgChild struct {
 	pgThing
@@ -109,7 +214,7 @@ type pgChild struct {
 
 type pgChildStrategy struct{ parent *boltz.BaseStore[*pgThing] }
 
-func (s *pgChildStrategy) NewEntity() *pgChild                          { return &pgChild{} }
+func (s *pgChildStrategy) NewEntity() *pgChild                         { return &pgChild{} }
 func (s *pgChildStrategy) FillEntity(e *pgChild, b *boltz.TypedBucket) {}
 func (s *pgChildStrategy) PersistEntity(e *pgChild, ctx *boltz.PersistContext) {
 	s.parent.GetEntityStrategy().PersistEntity(&e.pgThing, ctx.GetParentContext())
@@ -129,11 +234,15 @@ type pgStores struct {
 	things   *boltz.BaseStore[*pgThing]
 	child    *boltz.BaseStore[*pgChild]
 	ext      *boltz.BaseStore[*pgChild]
+	owners   *boltz.BaseStore[*pgOwner]
 	idxRoles boltz.SetReadIndex
 	rows     []*pgThing
 	objs     *objectz.ObjectStore[*pgThing]
-	objOrder []*pgThing // iteration order of the object store
-	useMap   bool       // iterate with objectz.IterateMap (Go map order) instead of objOrder
+	objsSub  *objectz.ObjectStore[*pgThing] // declares only id, s, i
+	objsNoId *objectz.ObjectStore[*pgThing] // declares everything but id
+	objOrder []*pgThing                     // iteration order of the object store
+	useMap   bool                           // iterate with objectz.IterateMap (Go map order) instead of objOrder
+	nilIter  bool                           // the iterator function returns nil
 }
 
 type pgSliceIter struct {
@@ -158,6 +267,31 @@ func pgParseRows(ds string) []*pgThing {
 	for idx, r := range strings.Split(ds, ";") {
 		f := strings.Split(r, ",")
 		e := &pgThing{Id: f[0], explicitNil: idx%2 == 1}
+		// typed tokens: native type of the column -> the struct field, any other type -> override
+		native := map[int]byte{1: 'B', 2: 'I', 3: 'J', 4: 'F', 5: 'S', 6: 'T'}
+		names := map[int]string{1: "b", 2: "i", 3: "n", 4: "f", 5: "s", 6: "t"}
+		for c := 1; c <= 6; c++ {
+			if v, ok := pgTypedTok(f[c]); ok {
+				if v.kind == native[c] {
+					switch c {
+					case 1:
+						f[c] = map[bool]string{true: "1", false: "0"}[v.b]
+					case 2, 3:
+						f[c] = strconv.FormatInt(v.i, 10)
+					case 4:
+						f[c] = fmt.Sprintf("%016x", math.Float64bits(v.f))
+					case 6:
+						f[c] = f[c][1:]
+					}
+				} else {
+					if e.over == nil {
+						e.over = map[string]*pgTyped{}
+					}
+					e.over[names[c]] = v
+					f[c] = "N"
+				}
+			}
+		}
 		if f[1] != "N" {
 			v := f[1] == "1"
 			e.B = &v
@@ -189,6 +323,10 @@ func pgParseRows(ds string) []*pgThing {
 		}
 		if len(f) > 8 {
 			e.Child = f[8][1:]
+		}
+		if len(f) > 9 && len(f[9]) > 1 {
+			o := f[9][1:]
+			e.Owner = &o
 		}
 		rows = append(rows, e)
 	}
@@ -240,8 +378,24 @@ func pgLoad(ds string) *pgStores {
 	s.things.AddSymbol("f", ast.NodeTypeFloat64)
 	s.things.AddSymbol("s", ast.NodeTypeString)
 	s.things.AddSymbol("t", ast.NodeTypeDatetime)
+	s.things.AddSymbolWithKey("a", ast.NodeTypeAnyType, "s")
+	s.things.AddMapSymbol("tags", ast.NodeTypeAnyType, "tags")
 	symRoles := s.things.AddSetSymbol("roles", ast.NodeTypeString)
 	s.idxRoles = s.things.AddSetIndex(symRoles)
+	s.owners = boltz.NewBaseStore(boltz.StoreDefinition[*pgOwner]{
+		EntityType:     "owners",
+		EntityStrategy: pgOwnerStrategy{},
+		BasePath:       []string{"u"},
+		EntityNotFoundF: func(id string) error {
+			return boltz.NewNotFoundError("owner", "id", id)
+		},
+	})
+	s.owners.InitImpl(s.owners)
+	s.owners.AddIdSymbol("id", ast.NodeTypeString)
+	s.owners.AddSymbol("label", ast.NodeTypeString)
+	symOwnerThings := s.owners.AddFkSetSymbol("things", s.things)
+	symOwner := s.things.AddFkSymbol("owner", s.owners)
+	s.things.AddNullableFkIndex(symOwner, symOwnerThings)
 	notFound := func(id string) error { return boltz.NewNotFoundError("thing", "id", id) }
 	s.child = boltz.NewBaseStore(boltz.StoreDefinition[*pgChild]{
 		EntityStrategy: &pgChildStrategy{parent: s.things}, BasePath: []string{"ext1"}, Parent: s.things,
@@ -255,12 +409,25 @@ func pgLoad(ds string) *pgStores {
 	s.ext.InitImpl(s.ext)
 	s.things.GrantSymbols(s.child)
 	s.things.GrantSymbols(s.ext)
+	s.child.AddSymbol("code", ast.NodeTypeString)
+	s.ext.AddSymbol("code", ast.NodeTypeString)
 
 	s.rows = pgParseRows(ds)
 	err = db.Update(func(tx *bbolt.Tx) error {
 		h := &errorz.ErrorHolderImpl{}
 		s.things.InitializeIndexes(tx, h)
-		return h.Err
+		s.owners.InitializeIndexes(tx, h)
+		if h.Err != nil {
+			return h.Err
+		}
+		ctx := boltz.NewTxMutateContext(context.Background(), tx)
+		x, a := "x", "a"
+		for i, lbl := range []*string{&x, nil, &a} {
+			if err := s.owners.Create(ctx, &pgOwner{Id: pgOwnerIds[i], Label: lbl}); err != nil {
+				return err
+			}
+		}
+		return nil
 	})
 	if err != nil {
 		panic(err)
@@ -296,7 +463,10 @@ func pgLoad(ds string) *pgStores {
 	}
 
 	s.objOrder = append([]*pgThing{}, s.rows...)
-	s.objs = objectz.NewObjectStore(func() objectz.ObjectIterator[*pgThing] {
+	iter := func() objectz.ObjectIterator[*pgThing] {
+		if s.nilIter {
+			return nil
+		}
 		if s.useMap {
 			m := map[string]*pgThing{}
 			for _, e := range s.rows {
@@ -305,20 +475,30 @@ func pgLoad(ds string) *pgStores {
 			return objectz.IterateMap(m)
 		}
 		return &pgSliceIter{xs: s.objOrder}
-	})
-	s.objs.AddStringSymbol("id", func(e *pgThing) *string { return &e.Id })
-	s.objs.AddBoolSymbol("b", func(e *pgThing) *bool { return e.B })
-	s.objs.AddInt64Symbol("i", func(e *pgThing) *int64 { return e.I })
-	s.objs.AddInt64Symbol("n", func(e *pgThing) *int64 {
-		if e.N == nil {
-			return nil
-		}
-		v := int64(*e.N)
-		return &v
-	})
-	s.objs.AddFloat64Symbol("f", func(e *pgThing) *float64 { return e.F })
-	s.objs.AddStringSymbol("s", func(e *pgThing) *string { return e.S })
-	s.objs.AddDatetimeSymbol("t", func(e *pgThing) *time.Time { return e.T })
+	}
+	// three object stores over the same collection: every Add…Symbol kind / a subset of the symbols / no id symbol
+	s.objs = objectz.NewObjectStore(iter)
+	s.objsSub = objectz.NewObjectStore(iter)
+	s.objsNoId = objectz.NewObjectStore(iter)
+	for _, o := range []*objectz.ObjectStore[*pgThing]{s.objs, s.objsSub} {
+		o.AddStringSymbol("id", func(e *pgThing) *string { return &e.Id })
+	}
+	for _, o := range []*objectz.ObjectStore[*pgThing]{s.objs, s.objsNoId} {
+		o.AddBoolSymbol("b", func(e *pgThing) *bool { return e.B })
+		o.AddInt64Symbol("n", func(e *pgThing) *int64 {
+			if e.N == nil {
+				return nil
+			}
+			v := int64(*e.N)
+			return &v
+		})
+		o.AddFloat64Symbol("f", func(e *pgThing) *float64 { return e.F })
+		o.AddDatetimeSymbol("t", func(e *pgThing) *time.Time { return e.T })
+	}
+	for _, o := range []*objectz.ObjectStore[*pgThing]{s.objs, s.objsSub, s.objsNoId} {
+		o.AddInt64Symbol("i", func(e *pgThing) *int64 { return e.I })
+		o.AddStringSymbol("s", func(e *pgThing) *string { return e.S })
+	}
 
 	pgCache, pgCacheKey = s, ds
 	return s
@@ -352,28 +532,65 @@ func pgConstText(field, tok string) string {
 			s += ".0"
 		}
 		return s
-	case "s", "id":
-		return strconv.Quote(fromWire(orDash(tok[1:])))
 	case "t":
 		return "datetime(" + pgTimeOf(tok).Format(time.RFC3339Nano) + ")"
 	}
-	return tok
+	// string symbols, the id, and names the stores do not know: a string constant
+	return strconv.Quote(fromWire(orDash(tok[1:])))
+}
+
+func pgAtomText(atom string) string {
+	f := strings.Split(atom, ".")
+	switch f[0] {
+	case "true":
+		return "true"
+	case "null":
+		return f[1] + " = null"
+	case "notnull":
+		return f[1] + " != null"
+	case "cmp":
+		return f[1] + " " + pgOpText[f[2]] + " " + pgConstText(f[1], f[3])
+	case "setfn":
+		// a set function applied to symbol f[2]
+		switch f[1] {
+		case "anyOf", "allOf":
+			return f[1] + "(" + f[2] + ") = \"a\""
+		case "count":
+			return "count(" + f[2] + ") > 0"
+		default:
+			return "isEmpty(" + f[2] + ")"
+		}
+	}
+	return atom
+}
+
+// pgFilterText renders a filter token: an atom, or prefix notation over "~": and~A~B, or~A~B, not~A
+func pgFilterText(filter string) string {
+	toks := strings.Split(filter, "~")
+	var rec func() string
+	rec = func() string {
+		if len(toks) == 0 {
+			return "true"
+		}
+		t := toks[0]
+		toks = toks[1:]
+		switch t {
+		case "and", "or":
+			a := rec()
+			b := rec()
+			return "(" + a + " " + t + " " + b + ")"
+		case "not":
+			return "(not (" + rec() + "))"
+		}
+		return pgAtomText(t)
+	}
+	return rec()
 }
 
 // pgQueryText renders filter / sort / skip / limit tokens as ZitiQL.
 func pgQueryText(filter, sortTok, skip, limit string) string {
 	var parts []string
-	f := strings.Split(filter, ".")
-	switch f[0] {
-	case "true":
-		parts = append(parts, "true")
-	case "null":
-		parts = append(parts, f[1]+" = null")
-	case "notnull":
-		parts = append(parts, f[1]+" != null")
-	case "cmp":
-		parts = append(parts, f[1]+" "+pgOpText[f[2]]+" "+pgConstText(f[1], f[3]))
-	}
+	parts = append(parts, pgFilterText(filter))
 	if sortTok != "-" {
 		var fs []string
 		for _, sf := range strings.Split(sortTok, ",") {
@@ -407,9 +624,23 @@ func pgQueryText(filter, sortTok, skip, limit string) string {
 	return strings.Join(parts, " ")
 }
 
+// pgErr maps an error to a small enum: the three refusals of newRowComparator by kind, anything else "err".
+func pgErr(err error) string {
+	msg := err.Error()
+	switch {
+	case strings.HasPrefix(msg, "no such sort field"):
+		return "err:nosuch"
+	case strings.HasPrefix(msg, "invalid sort field"):
+		return "err:set"
+	case strings.HasPrefix(msg, "unsupported sort field type"):
+		return "err:type"
+	}
+	return "err"
+}
+
 func pgIds(ids []string, count int64, err error) string {
 	if err != nil {
-		return "err"
+		return pgErr(err)
 	}
 	return strings.Join(ids, ",") + "#" + strconv.FormatInt(count, 10)
 }
@@ -429,8 +660,9 @@ var pgBoolPool = []string{"N", "0", "1", "1"}
 var pgIntPool = []string{"N", "-1", "0", "7", "7", "9223372036854775807", "-9223372036854775808"}
 var pgInt32Pool = []string{"N", "-1", "0", "7", "2147483647"}
 
-// -1.5, -0.0, +0.0, 0.5, 2.5, +Inf, -Inf
-var pgFloatPool = []string{"N", "bff8000000000000", "8000000000000000", "0000000000000000", "3fe0000000000000", "4004000000000000", "7ff0000000000000", "fff0000000000000", "3fe0000000000000"}
+// -1.5, -0.0, +0.0, 0.5, 2.5, +Inf, -Inf, 0.5 again, NaN (two bit patterns: NaNs tie with each other and sort before every number)
+var pgFloatPool = []string{"N", "bff8000000000000", "8000000000000000", "0000000000000000", "3fe0000000000000", "4004000000000000", "7ff0000000000000", "fff0000000000000", "3fe0000000000000",
+	"7ff8000000000001", "fff8000000000000", "7ff8000000000001"}
 var pgFloatConsts = []string{"bff8000000000000", "0000000000000000", "3fe0000000000000", "4004000000000000"}
 var pgStrPool = []string{"N", "S", "S61", "S42", "S6162", "S62", "S61"}
 var pgStrConsts = []string{"S", "S61", "S6162", "S62"}
@@ -451,6 +683,7 @@ func pgTimeOf(tok string) time.Time {
 	ns, _ := strconv.ParseInt(tok, 10, 64)
 	return time.Unix(0, ns).UTC()
 }
+
 var pgRolePool = []string{"r", "w", "x"}
 var pgSortFields = []string{"id", "b", "i", "n", "f", "s", "t"}
 var pgOps = []string{"eq", "ne", "lt", "le", "gt", "ge"}
@@ -475,10 +708,21 @@ func pgGenRows(r *rng, n int) string {
 			}
 		}
 		roles += strings.Join(rs, ".")
-		rows = append(rows, strings.Join([]string{id, pick(r, pgBoolPool), pick(r, pgIntPool), pick(r, pgInt32Pool),
-			pick(r, pgFloatPool), pick(r, pgStrPool), pick(r, pgTimePool), roles, pick(r, []string{"C", "C", "C1", "C1", "C2"})}, ","))
+		f := []string{id, pick(r, pgBoolPool), pick(r, pgIntPool), pick(r, pgInt32Pool),
+			pick(r, pgFloatPool), pick(r, pgStrPool), pick(r, pgTimePool), roles, pick(r, []string{"C", "C", "C1", "C1", "C2"})}
+		rows = append(rows, strings.Join(append(f, pgOwnerOf(f)), ","))
 	}
 	return strings.Join(rows, ";")
+}
+
+// pgOwnerOf derives the row's owner from its other fields (no extra random draw: the generated stream of
+// datasets stays what it was before owners existed): none, o1, o2 or o3.
+func pgOwnerOf(f []string) string {
+	k := 0
+	for _, t := range f {
+		k += len(t) + int(t[0])
+	}
+	return []string{"O", "Oo1", "Oo2", "Oo3", "Oo1"}[k%5]
 }
 
 func pgGenFilter(r *rng, simpleOnly bool) string {
